@@ -242,7 +242,9 @@ def _expand_mutex_groups(G: nx.DiGraph, nodes: list[HyperNode]) -> list[list[set
         elif not isinstance(node, IfElseNode):
             continue
 
-        targets = [t for t in node.targets if t is not END and isinstance(t, str)]
+        # Unknown targets are reported later by validate_graph(); skip them
+        # here so they surface as GraphConfigError, not a networkx error
+        targets = [t for t in node.targets if t is not END and isinstance(t, str) and t in G]
         if len(targets) < 2:
             continue
 
